@@ -5,6 +5,7 @@ package main
 
 import (
 	"fmt"
+	"go/constant"
 	"go/types"
 	"strings"
 
@@ -66,7 +67,7 @@ func (e *Exec) libModel(st *State, callee *ssa.Function, cc *ssa.CallCommon, arg
 		used()
 		set(e.newError(st, resT))
 		return true, true, nil
-	case "fmt.Sprintf", "fmt.Sprint", "fmt.Sprintln", "strconv.Itoa", "strconv.FormatInt", "strconv.FormatUint", "strconv.Quote", "(time.Time).String", "(net.IP).String", "(time.Duration).String", "strings.Join", "strings.ToLower", "strings.ToUpper", "strings.TrimSpace", "strings.Repeat", "strings.Replace", "strings.ReplaceAll", "strings.Title", "strings.TrimPrefix", "strings.TrimSuffix", "strings.Trim", "strings.TrimLeft", "strings.TrimRight", "encoding/hex.EncodeToString", "(*strings.Builder).String", "(*bytes.Buffer).String":
+	case "fmt.Sprintf", "fmt.Sprint", "fmt.Sprintln", "strconv.Itoa", "strconv.FormatInt", "strconv.FormatUint", "strconv.Quote", "(time.Time).String", "(net.IP).String", "(time.Duration).String", "strings.Join", "strings.ToLower", "strings.ToUpper", "strings.TrimSpace", "strings.Repeat", "strings.Replace", "strings.ReplaceAll", "strings.Title", "strings.Trim", "strings.TrimLeft", "strings.TrimRight", "encoding/hex.EncodeToString", "(*strings.Builder).String", "(*bytes.Buffer).String":
 		used()
 		set(e.freshVal(st, "str", resT))
 		return true, true, nil
@@ -194,6 +195,48 @@ func (e *Exec) libModel(st *State, callee *ssa.Function, cc *ssa.CallCommon, arg
 			fmt.Sprintf("(= (= (i-tag %s) 0) (= %s (s-len %s)))", errv.S, n, b.S)))
 		set(Val{T: resT, Tup: []Val{{T: tInt, S: n}, errv}})
 		return true, true, nil
+	case "strings.HasPrefix", "strings.HasSuffix":
+		used()
+		sv, pv := args[0], args[1]
+		r := e.freshVal(st, "hasfix", resT)
+		// result => len(s) >= len(prefix); with a constant prefix the result is exact
+		e.assume(st, imp(r.S, e.le("(str-len "+pv.S+")", "(str-len "+sv.S+")")))
+		if c, ok := cc.Args[1].(*ssa.Const); ok && c.Value != nil && name == "strings.HasPrefix" {
+			pre := constantString(c)
+			if len(pre) <= 64 {
+				parts := []string{e.le(e.sc.idxLit(int64(len(pre))), "(str-len "+sv.S+")")}
+				for i := 0; i < len(pre); i++ {
+					parts = append(parts, eq(fmt.Sprintf("(select (str-arr %s) %s)", sv.S, e.add("(str-off "+sv.S+")", e.sc.idxLit(int64(i)))), e.sc.byteLit(int(pre[i]))))
+				}
+				e.assume(st, eq(r.S, and(parts...)))
+			}
+		}
+		set(r)
+		return true, true, nil
+	case "strings.TrimPrefix", "strings.TrimSuffix":
+		used()
+		r := e.freshVal(st, "trim", resT)
+		e.assume(st, e.le("(str-len "+r.S+")", "(str-len "+args[0].S+")"))
+		set(r)
+		return true, true, nil
+	case "strings.Contains", "strings.ContainsRune", "strings.EqualFold":
+		used()
+		set(e.freshVal(st, "strpred", resT))
+		return true, true, nil
+	case "strings.Split", "strings.SplitN", "strings.Fields", "strings.FieldsFunc":
+		used()
+		set(e.freshVal(st, "strsplit", resT))
+		return true, true, nil
+	case "strings.Index", "strings.LastIndex", "strings.IndexByte", "strings.LastIndexByte", "strings.IndexRune":
+		used()
+		r := e.freshVal(st, "stridx", resT)
+		// -1 or a position inside s
+		e.assume(st, and(e.le(e.sc.idxLit(-1), r.S), e.lt(r.S, "(str-len "+args[0].S+")")))
+		if e.mode == ModeBV {
+			e.assume(st, or(eq(r.S, e.sc.idxLit(-1)), e.le(e.add(r.S, "(str-len "+args[len(args)-1].S+")"), "(str-len "+args[0].S+")")))
+		}
+		set(r)
+		return true, true, nil
 	case "bytes.Equal":
 		used()
 		set(e.freshVal(st, "beq", resT))
@@ -269,4 +312,11 @@ func (e *Exec) reflectModel(st *State, name string, callee *ssa.Function, cc *ss
 		return true, true, nil
 	}
 	return false, true, nil
+}
+
+func constantString(c *ssa.Const) string {
+	if c.Value == nil || c.Value.Kind() != constant.String {
+		return ""
+	}
+	return constant.StringVal(c.Value)
 }
